@@ -40,7 +40,8 @@ CONTENTS = [
 ]
 BINARY = b"\xff\xfe\x00bad"
 
-FILE_NAMES = ["a.typ", "b.typ", "c.txt", ".h.typ", "d.TYP", "typ", "x.y.typ", "sp ace.typ", "e.typ"]
+# "\udcff" is how Python spells the byte 0xFF in a file name that is not UTF-8 (surrogateescape): a hidden and a visible one
+FILE_NAMES = ["a.typ", "b.typ", "c.txt", ".h.typ", "d.TYP", "typ", "x.y.typ", "sp ace.typ", "e.typ", ".\udcffh.typ", "n\udcff.typ"]
 DIRS = ["", "x", "x/y", ".hid", ".hid/sub", "dir.typ", "x/.git"]
 
 
@@ -205,7 +206,7 @@ def ptok(p):
     if p in ("", "."):
         return "P:-"
     p = p[2:] if p.startswith("./") else p
-    return "P:" + p.encode().hex()
+    return "P:" + p.encode(errors="surrogateescape").hex()
 
 
 def model_run(inv, mfs, lib):
@@ -260,7 +261,7 @@ def model_run(inv, mfs, lib):
 
 def dec_path(tok):
     h = tok[2:]
-    return "" if h == "-" else bytes.fromhex(h).decode()
+    return "" if h == "-" else bytes.fromhex(h).decode(errors="surrogateescape")
 
 
 def materialise(root, sc):
@@ -662,4 +663,13 @@ def corpus_scenarios(shapes):
         res.append(mk(dict(bom), [inv("all")]))
     if "files-check" in shapes:
         res.append(mk(dict(bom), [inv("files-check", inputs=["k.typ"]), inv("files-check", inputs=["m.typ"])]))
+    # texts printed in one piece that are larger than a stdout buffer and do not end with a line feed (erroneous sources
+    # are printed unchanged), alone, from standard input, and followed by another file
+    tail = "= Draft\n\n#let body = [\n" + "word " * 400
+    big = {"t.typ": T(tail), "k.typ": T("ok\n"), "u.typ": T("#let a = (" + "x" * 5000)}
+    if "files-plain" in shapes:
+        res.append(mk(dict(big), [inv("files-plain", inputs=["t.typ"]), inv("files-plain", inputs=["t.typ", "k.typ"]),
+                                  inv("files-plain", inputs=["u.typ", "t.typ", "k.typ"])]))
+    if "stdin-plain" in shapes:
+        res.append(mk(dict(big), [inv("stdin-plain", stdin=tail), inv("stdin-plain", stdin=big["u.typ"][1])]))
     return res
